@@ -196,6 +196,18 @@ CLAIMED = {
              "generator's List/Array structure, key order and leaf items are compared; every mutant must raise.",
         note="the generator stays inside what the document defines (no empty lists, distinct keys, upper-case L)",
         design="5/C19"),
+    "C03": dict(
+        technique="catalogue constants regenerated from the tree (classes and functions.yaml) into CatalogueData.tla and checked by TLC "
+                  "against spec/Catalogue.tla; structure-conforming values replayed through every function class, bodies judged by "
+                  "TLC against the E5 reference (E5Judge), decode by S/F lookup compared",
+        text="TLC checks unique S/F, agreement of Python classes and YAML (flags and structure), primary/secondary pairing with "
+             "mirrored direction, reply-required => reply, F0 without data on constants regenerated at every run. For all 134 "
+             "functions ~1.4k conforming values (baseline + one variation at a time: open lists 0/2 elements, every allowed type "
+             "of every data item, boundary lengths) are encoded by the function class; TLC judges each body against E5Item; "
+             "StreamsFunctions().decode by S/F from an HSMS header must give the same class, equal value, identical re-encode; plain "
+             "values read back unchanged.",
+        note="variations one at a time (no cross product), one representative value per type",
+        design="5/C03"),
 }
 
 NOT_YET = "check not built yet in this round (specification and harness in progress; see DESIGN.md section 9)"
